@@ -80,6 +80,46 @@ def run_case(cls, ops, labels, n, psi0, shots=1):
     return None, r
 
 
+def same_simulator_case(rng, cls):
+    """ONE simulator object serves two circuits of the same name, register size and measured qubits (the second is the
+    first with more operations in front of the read-out, as `QuantumCircuit.copy()` + appended gates would give): each
+    run must reproduce ITS circuit's ideal distribution.  Returns (ops of the second circuit, failure or None)."""
+    import contextlib, io
+    import quantum_gates._simulation.simulator as S
+    from quantum_gates._gates.gates import NoiseFreeGates
+    n = rng.randint(2, 4)
+    opsA, labels = W.random_ops(rng, cls, n, rng.randint(3, 9))
+    body = [op for op in opsA if op[0] != "measure"]
+    if cls in ("grid", "standard") and not any(op[0] in ("cx", "ecr") for op in body):
+        body.append(["cx", labels[0], labels[1]])
+    meas = [op for op in opsA if op[0] == "measure"]
+    q = rng.choice(labels)
+    extra = [["rz", q, rng.randint(20, 100)], ["sx", q], ["rz", q, rng.randint(20, 100)], ["sx", rng.choice(labels)]]
+    opsA, opsB = body + meas, body + extra + meas
+    nl = max(labels) + 1
+    ncl = max(op[2] for op in meas) + 1
+    psi0 = random_psi0(rng, n)
+    dp = noise_free_params(max(labels))
+    sim = S.MrAndersonSimulator(gates=NoiseFreeGates(), CircuitClass=W.circuit_class(cls), parallel=False)
+    qcs = [W.build_qiskit(o, nl, ncl) for o in (opsA, opsB)]
+    qcs[1].name = qcs[0].name
+    for tag, ops, qc in (("first", opsA, qcs[0]), ("second (same name, more gates)", opsB, qcs[1])):
+        try:
+            with contextlib.redirect_stdout(io.StringIO()):
+                got = sim.run(t_qiskit_circ=qc, qubits_layout=list(range(nl)), psi0=psi0, shots=1, device_param=dp, nqubit=n)
+        except Exception as e:                  # noqa
+            return opsB, f"{tag} run on one simulator object raised {type(e).__name__}: {str(e)[:100]}"
+        want = ideal_probs(ops, labels, psi0)
+        if set(want) != set(got):
+            return opsB, f"{tag} run on one simulator object: outcome keys {sorted(got)[:4]} differ from the ideal circuit's"
+        dev = max(abs(want[k] - got[k]) for k in want)
+        if not dev <= 1e-9:
+            k = max(want, key=lambda k: abs(want[k] - got[k]))
+            return opsB, (f"{tag} run on one simulator object: probability of outcome {k!r} is {got[k]:.6f}, the ideal circuit gives "
+                          f"{want[k]:.6f}")
+    return opsB, None
+
+
 def fix_counts_case(rng, n):
     """ascending classical bits: reversing the keys with fix_counts gives Qiskit's little-endian table"""
     from quantum_gates._utility.simulations_utility import fix_counts
@@ -166,6 +206,12 @@ def main(ctx):
                 hist[key] = hist.get(key, 0) + 1
         if bad:
             fails.append((cls, ops, labels, n, [complex(x) for x in psi0], bad + (f" (mean of {shots} shots)" if shots > 1 else ""), shots))
+    for cls in CLASSES:
+        for _ in range(4 if ctx.thorough else 1):
+            ops, bad = same_simulator_case(rng, cls); ctx.count()
+            hist["same-simulator"] = hist.get("same-simulator", 0) + 1
+            if bad:
+                fails.append((cls, ops, None, None, None, bad))
     for _ in range(12 if ctx.thorough else 4):
         ops, bad = fix_counts_case(rng, rng.randint(1, 4)); ctx.count()
         if bad:
